@@ -599,7 +599,7 @@ pub fn run_c15(args: &Args) -> i32 {
   rep.assume("C15/unknown-pid judges parameter ids the implementation does not interpret: unassigned protocol ids 0x2000-0x3fff, vendor ids 0x8000-0xbfff (without 0x800f), and the assigned-but-unmodelled ids listed in UNINTERPRETED; all with bit 14 (must-understand) clear. For ids with bit 14 set (e.g. 0x7f00) RTPS lets a receiver refuse the data, so a parse error is accepted there and only a successful parse with disturbed known fields is a violation. Foreign parameter lengths are multiples of 4 as RTPS 9.4.2.11 requires");
   rep.assume("C15/defaults: a field modelled as Option may come back absent (the consumer applies the default) or as exactly the prescribed default; only the defaults listed at the top of c_plcdr.rs are judged; lists lacking manualLivelinessCount (no default in the table) are not judged when refused");
   rep.assume("ParticipantMessageData travels as plain CDR, not as a parameter list: only C15/roundtrip applies to it");
-  let ncases = args.scale(50_000, 1_500_000);
+  let ncases = args.scale(50_000, 6_000_000);
   let seed = args.seed;
   let replay_case = crate::replay_index(args);
 
